@@ -23,7 +23,7 @@ impl Group for E2eGroup {
             l("e2e refused socks"), l("e2e reuse 6"), l("e2e reaper"),
             l("e2e badpreamble bitflip"), l("e2e badpreamble random"), l("e2e badpreamble truncated"), l("e2e badpreamble good"),
             l("e2e badpreamble good 1"), l("e2e badpreamble trimmed 1"), l("e2e badpreamble good 3"), l("e2e badpreamble trimmed 5"), l("e2e badpreamble lower 10"),
-            l("e2e pushe2e"), l("e2e preamble 77"), l("e2e udp 1 100 1472 9000"), l("e2e early socks 300"),
+            l("e2e pushe2e"), l("e2e preamble 77"), l("e2e udp 1 100 1472 9000"), l("e2e udp6 1 100 1472 65507 3"), l("e2e udp 65507 1 30000 2"), l("e2e early socks 300"),
             l("e2e slow up direct 6000000"), l("e2e slow down socks 6000000"), l("e2e slow up socks 3000000"), l("e2e slow down http 3000000"), l("e2e slow up http 3000000"),
             l("e2e blackhole all"), l("e2e noname"), l("e2e certreload BxCtAmB"), l("e2e certreload xBEC"), l("e2e certreload DADxB"),
         ];
@@ -37,7 +37,7 @@ impl Group for E2eGroup {
             4 => format!("e2e targetclose socks {}", rng.pick(&[0usize, 1, 5000, 200000])),
             5 => format!("e2e reuse {}", rng.range(2, 12)),
             6 => format!("e2e badpreamble {} {}", rng.pick(&["bitflip", "random", "truncated", "good", "good", "trimmed", "lower"]), rng.below(crate::g_auth::PASSWORDS.len() as u64)),
-            7 => format!("e2e udp {}", (0..rng.range(1, 5)).map(|_| rng.pick(&[1usize, 2, 100, 1472, 9000, 30000]).to_string()).collect::<Vec<_>>().join(" ")),
+            7 => format!("e2e {} {}", rng.pick(&["udp", "udp", "udp6"]), (0..rng.range(1, 5)).map(|_| rng.pick(&[1usize, 2, 100, 1472, 9000, 30000, 65507]).to_string()).collect::<Vec<_>>().join(" ")),
             8 => format!("e2e early socks {}", rng.pick(&[1usize, 300, 20000])),
             9 => format!("e2e slow {} {} {}", rng.pick(&["up", "down"]), rng.pick(&["socks", "http", "direct"]), rng.pick(&[1_000_000usize, 3_000_000, 6_000_000, 12_000_000])),
             10 => if rng.chance(1, 2) { format!("e2e blackhole {}", rng.pick(&["socks", "http", "direct"])) } else { format!("e2e certreload {}", (0..rng.range(1, 8)).map(|_| *rng.pick(&["A", "B", "C", "D", "x", "t", "m", "E"])).collect::<String>()) },
@@ -53,7 +53,7 @@ impl Group for E2eGroup {
                 "targetclose" => format!("e2e targetclose socks {}", rng.pick(&[0usize, 1, 5000, 200000])),
                 "reuse" => format!("e2e reuse {}", rng.range(2, 12)),
                 "badpreamble" => format!("e2e badpreamble {} {}", rng.pick(&["bitflip", "random", "truncated", "good", "good", "trimmed", "lower"]), rng.below(crate::g_auth::PASSWORDS.len() as u64)),
-                "udp" => format!("e2e udp {}", (0..rng.range(1, 5)).map(|_| rng.pick(&[1usize, 2, 100, 1472, 9000, 30000]).to_string()).collect::<Vec<_>>().join(" ")),
+                "udp" => format!("e2e {} {}", rng.pick(&["udp", "udp", "udp6"]), (0..rng.range(1, 5)).map(|_| rng.pick(&[1usize, 2, 100, 1472, 9000, 30000, 65507]).to_string()).collect::<Vec<_>>().join(" ")),
                 "early" => format!("e2e early socks {}", rng.pick(&[1usize, 300, 20000])),
                 "refused" => "e2e refused socks".to_string(),
                 "slow" => format!("e2e slow {} {} {}", rng.pick(&["up", "down"]), rng.pick(&["socks", "http", "direct"]), rng.pick(&[1_000_000usize, 3_000_000, 6_000_000, 12_000_000])),
@@ -97,6 +97,7 @@ fn wanted(line: &str) -> bool {
     let only = std::env::var("VH_ONLY").unwrap_or_default();
     if only.is_empty() { return true; }
     let name = line.split_whitespace().nth(1).unwrap_or("");
+    let name = if name == "udp6" { "udp" } else { name };
     only.split(',').any(|x| x == name)
 }
 
@@ -121,7 +122,8 @@ async fn scenario(t: &[String]) -> Res {
         ["e2e", "badpreamble", kind, pwi] => badpreamble(kind, pwi.parse().map_err(|_| "pwi")?).await,
         ["e2e", "pushe2e"] => pushe2e().await,
         ["e2e", "preamble", k] => preamble2(k.parse().map_err(|_| "k")?).await,
-        ["e2e", "udp", sizes @ ..] => udp(&sizes.iter().filter_map(|x| x.parse().ok()).collect::<Vec<usize>>()).await,
+        ["e2e", "udp", sizes @ ..] => udp(&sizes.iter().filter_map(|x| x.parse().ok()).collect::<Vec<usize>>(), false).await,
+        ["e2e", "udp6", sizes @ ..] => udp(&sizes.iter().filter_map(|x| x.parse().ok()).collect::<Vec<usize>>(), true).await,
         ["e2e", "early", "socks", n] => early(n.parse().map_err(|_| "n")?).await,
         _ => Err("unknown scenario".into()),
     }
@@ -717,9 +719,11 @@ async fn preamble2(k: usize) -> Res {
     Ok((format!("first={} second={} announced_pushed={}", if first.1 > 0 { "padded" } else { "bare" }, second.1, (second.2 == want_md5) as u8), fails))
 }
 
-async fn udp(sizes: &[usize]) -> Res {
+async fn udp(sizes: &[usize], v6: bool) -> Res {
+    // v6: the target is a UDP socket on the IPv6 loopback (the association names an IPv6 destination)
+    if v6 && std::net::UdpSocket::bind("[::1]:0").is_err() { return Err("no IPv6 loopback on this host".into()); }
     let w = World::start(None, None, pool_default(), false).await?;
-    let tsock = tokio::net::UdpSocket::bind("127.0.0.1:0").await.map_err(|e| e.to_string())?;
+    let tsock = tokio::net::UdpSocket::bind(if v6 { "[::1]:0" } else { "127.0.0.1:0" }).await.map_err(|e| e.to_string())?;
     let taddr = tsock.local_addr().map_err(|e| e.to_string())?;
     let seen = std::sync::Arc::new(std::sync::Mutex::new(Vec::<Vec<u8>>::new()));
     let s2 = seen.clone();
